@@ -220,6 +220,14 @@ def byref_family(rng):
     else:
         main.append(["log", ["itob", ["call", 0, a0]]])
     main.append(["log", ["nary", "concat", [["itob", ["load", "gu"]], ["load", "gb"], ["itob", ["load", "gu2"]]]]])
+    # a variable that is stored, read exactly once right away, and handed by reference to a routine that reads it: the only
+    # direct load sits next to the store, so only the by-reference protection keeps the optimiser from cancelling the pair
+    k = len(subs)
+    subs.append({"name": "s%d" % k, "params": [{"k": "ref", "t": "u"}], "ret": "u", "rec": False, "locals": [],
+                 "body": [["pstore", 0, ["bin", "*", ["pload", 0], ["int", 2]]]], "retexpr": ["pload", 0]})
+    vars_.append({"id": "gu3", "t": "u", "kind": "sv", "slot": None})
+    main.append(["store", "gu3", ["int", rng.choice([21, 5, 1000])]])
+    main.append(["log", ["itob", ["bin", "+", ["load", "gu3"], ["call", k, [["ref", "gu3"]]]]]])
     return {"mode": "app", "vars": vars_, "subs": subs, "main": main, "final": ["int", 1]}
 
 
@@ -274,7 +282,14 @@ def check_recipe(acc, recipe, version, optsets, ctxs, origin):
         refs.append(ref)
     info = rcase.routine_info_for(recipe)
     for o in optsets:
-        c = rcase.compile_recipe(recipe, version, "app", scratch_slots=False, frame_pointers=o["frame_pointers"])
+        shared = None
+        if o.get("reuse_pool") is not None:
+            # by-reference families are also compiled with scratch-slot optimisation on, through one OptimizeOptions object that is
+            # kept for the whole shard: slots passed by reference must stay protected whatever the object was used for before
+            import pyteal as pt
+            shared = o["reuse_pool"].setdefault("ss", pt.OptimizeOptions(scratch_slots=True, frame_pointers=o["frame_pointers"]))
+            acc.counters["byref_with_reused_optimizer_options"] += 1
+        c = rcase.compile_recipe(recipe, version, "app", scratch_slots=False, frame_pointers=o["frame_pointers"], optimize_obj=shared)
         if c.prog is None:
             acc.counters["compile_%s:%s" % ("rejected" if c.pt_error else "crashed", c.errtype)] += 1
             continue
@@ -283,7 +298,7 @@ def check_recipe(acc, recipe, version, optsets, ctxs, origin):
             if ref is None:
                 continue
             got = rcase.run_avm(c.prog, cd, routine_info=info, max_steps=100 * ref.steps + 20000)
-            case = {"recipe": recipe, "version": version, "ctx": cd, "origin": origin, "frame_pointers": o["frame_pointers"]}
+            case = {"recipe": recipe, "version": version, "ctx": cd, "origin": origin, "frame_pointers": o["frame_pointers"], "optimizer_on": shared is not None}
             if got.dropped == "avm_timeout":
                 acc.evaluations += 1
                 acc.violation("nontermination", case, "reference finished after %d node evaluations, compiled program still running" % ref.steps)
@@ -400,6 +415,7 @@ def run_shard(shard):
             check_recipe(acc, c["recipe"], c["version"], [{"frame_pointers": c.get("frame_pointers")}], [c["ctx"]], c.get("origin", "replay"))
         return acc.result()
     rng = rng_for(shard["seed"], "c02", shard["shard"])
+    reuse_pool = {}
     for it in range(shard["n"]):
         version = rng.choice([4, 5, 6, 6, 7, 8, 8, 9, 10])
         r = rng.random()
@@ -426,7 +442,10 @@ def run_shard(shard):
             version = max(version, 5)
             acc.counters["ladder_cases"] += 1
         ctxs = [recipes.gen_ctx_desc(rng, "app") for _ in range(3)]
-        check_recipe(acc, recipe, version, option_sets(rng, version), ctxs, origin)
+        osets = option_sets(rng, version)
+        if origin == "byref_family":
+            osets = osets + [{"frame_pointers": False if version >= 8 else None, "reuse_pool": reuse_pool}]
+        check_recipe(acc, recipe, version, osets, ctxs, origin)
         acc.counters["recipes_" + origin] += 1
     # ---- probes
     for v in (5, 8):
